@@ -655,9 +655,9 @@ RRT_B2 = [((0.30, 0.00), (0.36, 0.62)), ((0.30, 0.74), (0.36, 1.00)), ((0.55, 0.
 
 def rrt_line(j, trace=0):
     vec = lambda v: ",".join(fb(x) for x in v)
-    return ("run dim=%d lo=%s hi=%s boxes=%s starts=%s goals=%s thr=%s res=%s range=%s bias=%s is=%d seed=%d budget=%d "
+    return ("run space=%s dim=%d lo=%s hi=%s boxes=%s starts=%s goals=%s thr=%s res=%s range=%s bias=%s is=%d seed=%d budget=%d "
             "hist=%s ptc=%s trace=%d" % (
-                j["dim"], vec(j["lo"]), vec(j["hi"]), ";".join(vec(list(b[0]) + list(b[1])) for b in j["boxes"]) or "-",
+                j.get("space", "rv"), j["dim"], vec(j["lo"]), vec(j["hi"]), ";".join(vec(list(b[0]) + list(b[1])) for b in j["boxes"]) or "-",
                 ";".join(vec(s) for s in j["starts"]), ";".join(vec(g) for g in j["goals"]), fb(j["thr"]), fb(j["res"]),
                 fb(j["range"]), fb(j["bias"]), j["is"], j["seed"], j["budget"], j["hist"], j["ptc"], trace))
 
